@@ -153,9 +153,12 @@ pub fn check_copy(case: &CopyCase) -> CaseResult {
         2 => Op::CopyB(s.into(), d.into(), CopyOpt { mode: CopyMode::Dirs(CMODE), follow: false }),
         3 => Op::CopyB(s.into(), d.into(), CopyOpt { mode: CopyMode::Files(CMODE), follow: false }),
         4 => Op::CopyB(s.into(), d.into(), CopyOpt { mode: CopyMode::None, follow: true }),
+        // two chmod options on one builder: the later one replaces the earlier one
+        6 => Op::CopyB(s.into(), d.into(), CopyOpt { mode: CopyMode::Two(2, 0o600, 0, CMODE), follow: false }),
+        7 => Op::CopyB(s.into(), d.into(), CopyOpt { mode: CopyMode::Two(0, 0o600, 1, CMODE), follow: false }),
         _ => Op::MoveP(s.into(), d.into()),
     };
-    let vname = ["copy", "copy-chmod_all", "copy-chmod_dirs", "copy-chmod_files", "copy-follow", "move_p"][case.variant as usize % 6];
+    let vname = ["copy", "copy-chmod_all", "copy-chmod_dirs", "copy-chmod_files", "copy-follow", "move_p", "copy-chmod_files-then-chmod_all", "copy-chmod_all-then-chmod_dirs"][case.variant as usize % 8];
     let out = apply(&m, &op);
     if let Out::Panic(msg) = &out {
         return Err(Failure::new(format!("{}|panic|{}|{}", vname, panic_site(msg), cls), format!("{:?} panicked: {}", op, msg)));
@@ -312,7 +315,7 @@ pub fn check_copy(case: &CopyCase) -> CaseResult {
             },
             None => {
                 let selected = match (case.variant, a.kind()) {
-                    (1, Kind::Dir) | (1, Kind::File) | (2, Kind::Dir) | (3, Kind::File) => true,
+                    (1, Kind::Dir) | (1, Kind::File) | (2, Kind::Dir) | (3, Kind::File) | (6, Kind::Dir) | (6, Kind::File) | (7, Kind::Dir) => true,
                     _ => false,
                 };
                 let want = if a.kind() == Kind::Link {
@@ -345,14 +348,14 @@ pub fn check_copy(case: &CopyCase) -> CaseResult {
 }
 
 pub fn run(c: &Ctx) {
-    c.set_rule("exhaustive: every tree over the namespace {/a,/b} x {a,b} where each top-level slot is missing / file / link (to /a,/b,/a/a,/nope,/b/b) / directory with two children each missing / file / dir / link (3025 trees; every fourth gets non-default modes, owners or both), materialised on a fresh Memfs; x every ordered (src,dst) pair of 12 paths (the namespace, root, missing names, a missing parent, deeper-than-namespace) x {copy, copy+chmod_all, +chmod_dirs, +chmod_files, +follow, move_p}. quick: a seeded 1/3 of the trees, thorough: all (2.6 M cases). Oracle: postcondition predicates on the dump before/after (DESIGN section 4 C09): source untouched, every source entry has a copy at the same relative path with same kind/bytes/link target, new entries carry the source mode unless the chmod option selects their kind, existing entries kept, nothing outside the destination changes (except created ancestors); move: source gone, destination == former subtree (modes, owners, bytes, link text; relative links resolve from the new location), rest unchanged, failed move changes nothing; C03 invariants; call returns. Non-trivial = src exists and (dst exists or src/dst nested or an option is set); distinct by (tree, src, dst, variant).");
+    c.set_rule("exhaustive: every tree over the namespace {/a,/b} x {a,b} where each top-level slot is missing / file / link (to /a,/b,/a/a,/nope,/b/b) / directory with two children each missing / file / dir / link (3025 trees; every fourth gets non-default modes, owners or both), materialised on a fresh Memfs; x every ordered (src,dst) pair of 12 paths (the namespace, root, missing names, a missing parent, deeper-than-namespace) x {copy, copy+chmod_all, +chmod_dirs, +chmod_files, +follow, move_p, chmod_files-then-chmod_all, chmod_all-then-chmod_dirs (the later option replaces the earlier)}. quick: a seeded 1/3 of the trees, thorough: all (3.5 M cases). Oracle: postcondition predicates on the dump before/after (DESIGN section 4 C09): source untouched, every source entry has a copy at the same relative path with same kind/bytes/link target, new entries carry the source mode unless the chmod option selects their kind, existing entries kept, nothing outside the destination changes (except created ancestors); move: source gone, destination == former subtree (modes, owners, bytes, link text; relative links resolve from the new location), rest unchanged, failed move changes nothing; C03 invariants; call returns. Non-trivial = src exists and (dst exists or src/dst nested or an option is set); distinct by (tree, src, dst, variant).");
     c.assume("copy with follow on a source containing links: only frame conditions are asserted (placement undocumented)");
     let trees = all_trees();
     let paths = arg_paths();
     let den = c.tier.pick(3, 1);
     let np = paths.len() as u64;
     c.note("trees_total", trees.len());
-    let per_tree = np * np * 6;
+    let per_tree = np * np * 8;
     par_for(trees.len() as u64, 2, |ti| {
         if !sampled(c.seed, 900, ti, 1, den) {
             return;
@@ -362,9 +365,9 @@ pub fn run(c: &Ctx) {
         let pre = tree_from_dump(&m.verif_dump());
         let mut fps = vec![];
         for j in 0..per_tree {
-            let variant = (j % 6) as u8;
-            let s = paths[((j / 6) / np) as usize];
-            let d = paths[((j / 6) % np) as usize];
+            let variant = (j % 8) as u8;
+            let s = paths[((j / 8) / np) as usize];
+            let d = paths[((j / 8) % np) as usize];
             let case = CopyCase { tree: tree.clone(), src: s.into(), dst: d.into(), variant };
             if j % 97 == 0 {
                 mark("copy", &serde_json::to_string(&case).unwrap());
